@@ -155,6 +155,7 @@ type txShape struct {
 }
 
 type hist struct {
+	seq    map[int]string  // sequence id option of a transaction ("" = its own id: a first attempt)
 	last   map[int]txShape // shape of the transaction's last request (its response carries the same method and URL)
 	g      gcfg
 	now    int64
@@ -181,6 +182,9 @@ func (h *hist) reqShaped(id int, post bool, path string, hdr bool) {
 	if hdr {
 		op += " h=1"
 	}
+	if sq := h.seq[id]; sq != "" {
+		op += " s=" + sq
+	}
 	if h.last == nil {
 		h.last = map[int]txShape{}
 	}
@@ -204,6 +208,9 @@ func (h *hist) resp(id int) {
 	}
 	if sh.path != "x" {
 		op += " p=" + sh.path
+	}
+	if sq := h.seq[id]; sq != "" {
+		op += " s=" + sq
 	}
 	h.ops = append(h.ops, op)
 }
@@ -253,6 +260,16 @@ func randomCase(r *prng.R, id string, maxLen int) proto.Case {
 	fresh := 10
 	ln := r.Range(4, maxLen)
 	reloads := r.Chance(25)
+	// retried attempts: the sequence id is another transaction's id (the first attempt's), an id nobody has, or empty
+	if r.Chance(30) {
+		h.seq = map[int]string{}
+		for tx := 1; tx <= ntx; tx++ {
+			if r.Chance(60) {
+				h.seq[tx] = prng.Pick(r, []string{"e", "77", fmt.Sprint(r.Range(1, ntx))})
+			}
+		}
+		h.seq[11+r.Intn(6)] = prng.Pick(r, []string{"e", "1"})
+	}
 	for len(h.ops) <= ln {
 		tx := r.Range(1, ntx)
 		if reloads && r.Chance(12) {
@@ -602,6 +619,51 @@ func rewriteFamily(emit func(proto.Case)) {
 	}
 }
 
+// retried attempts (transaction id != sequence id: the first attempt's id, an unknown id, or no sequence id at all) admitted
+// under a concurrency quota and ended by every release path: response, the flow's own early answer, proxy error report,
+// response the quota's own filter does not select (POST-only quota, GET transaction), expiry. After each ending a
+// newcomer must get the slot.
+func retryFamily(emit func(proto.Case)) {
+	id := 0
+	for _, tp := range []topo{topos[0], topos[3], topos[2]} {
+		for _, sq := range []string{"1", "77", "e"} {
+			for _, narrow := range []bool{false, true} {
+				n := len(tp.quotas)
+				g := gcfg{t0: baseT0, gcSec: 1, early: true, tp: tp, max: make([]int64, n), expSec: make([]int64, n)}
+				for i := range tp.quotas {
+					g.max[i], g.expSec[i] = 1, 2
+				}
+				if narrow {
+					g.flt = make([]string, n)
+					for i, q := range tp.quotas {
+						if q[0] == 'c' {
+							g.flt[i] = "mP" // the quota's system flow selects POST only
+						}
+					}
+				}
+				h := &hist{g: g, now: g.t0, seq: map[int]string{2: sq, 3: sq, 4: sq, 5: sq, 6: sq}}
+				h.ops = append(h.ops, g.line())
+				h.req(1, false) // the first attempt
+				h.resp(1)
+				h.req(2, false) // retried attempts from here on
+				h.req(9, false) // refused: 2 is in flight
+				h.resp(2)       // response (outside the quota's filter when narrow)
+				h.req(3, false)
+				h.ops = append(h.ops, "err r=3") // proxy error report
+				h.req(4, true)                   // POST: answered by the flow itself
+				h.req(5, false)
+				h.req(10, false) // refused
+				h.apply("expire 0")
+				h.req(6, false)
+				h.resp(6)
+				h.req(11, false)
+				id++
+				emit(proto.Case{ID: fmt.Sprintf("retry%d", id), Ops: h.ops})
+			}
+		}
+	}
+}
+
 func gen(r *prng.R, f proto.Flags, emit func(proto.Case)) {
 	n := 1500
 	if f.Tier == "thorough" {
@@ -633,6 +695,7 @@ func gen(r *prng.R, f proto.Flags, emit func(proto.Case)) {
 		}
 	}
 	defaultsFamily(emit)
+	retryFamily(emit)
 	rewriteFamily(emit)
 	reloadFamily(emit)
 	genStress(emit, f.Tier == "thorough")
